@@ -40,7 +40,8 @@ Cloning == {"copy", "inline_vec", "push_back", "rfor_inline", "map_insert", "clo
 Routes == Sharing \cup Cloning
 \* mutators by the type they apply to
 Mutators == [ty \in {"int", "str", "vec", "map", "tk"} |->
-   CASE ty = "int" -> {":=", "=", "+=", "-=", "*=", "/=", "%=", "&=", "|=", "^=", "<<=", ">>=", "++", "--", "fn_ref", "fn_ptr"}
+   CASE ty = "int" -> {":=", "=", "+=", "-=", "*=", "/=", "%=", "&=", "|=", "^=", "<<=", ">>=", "++", "--", "fn_ref", "fn_ptr",
+                     "f=", "f+=", "f++", "bind*="}         \* the operators called as FUNCTIONS (`+=`(x, 5)) or through bind(): no Equation / Prefix node in front
      [] ty = "str" -> {":=", "=", "+=", "push_back", "clear", "erase_at", "elem=", "fn_ref", "fn_ptr"}
      [] ty = "vec" -> {":=", "=", "push_back", "pop_back", "clear", "erase_at", "insert_at", "resize", "elem=", "elem+=", "fn_ref"}
      [] ty = "map" -> {":=", "=", "clear", "elem=", "insert_new", "erase", "fn_ref"}
